@@ -89,6 +89,45 @@ def _mentions_param(v, p: str) -> bool:
     return any(x[1] == p or x[1].startswith(p + ".") or x[1].startswith(p + "[") for x in _av.find_all(v, "sym"))
 
 
+CLI_OPAQUE = {"add_schemes", "read_config", "validate_scheme", "find_pyproject_toml_config", "main", "get_code"}
+
+
+def cli_av(ctx: Ctx):
+    """evaluator for the cli layer: helper functions of the cli package are expanded (the snippets of get_code, the
+    formatter tail, the shared option handling may live in cli/utils.py), the functions that have rules of their own stay
+    opaque"""
+    from sa import av as _av
+
+    a = ctx.__dict__.get("_av_cli")
+    if a is None:
+        a = _av.AV(ctx.sm, inline=lambda c: _av.AV.default_inline(c) or ("/cli/" in c.rel and c.name not in CLI_OPAQUE and "." not in c.qualname))
+        ctx.__dict__["_av_cli"] = a
+    return a
+
+
+def get_code_value(ctx: Ctx, short: str, args: dict | None = None):
+    cache = ctx.__dict__.setdefault("_get_code_values", {})
+    k = (short, tuple(sorted((args or {}).items())))
+    if k not in cache:
+        gc = ctx.sm.func(short, "get_code")
+        cache[k] = cli_av(ctx).returned(gc, args)[0]
+    return cache[k]
+
+
+def add_schemes_call(ctx: Ctx, short: str):
+    """kwargs of the add_schemes(...) call in what get_code computes, or None"""
+    from sa import av as _av
+
+    v = get_code_value(ctx, short, {"backend": ("enum", "Backend", "numpy", "numpy")} if short.endswith("gotran2py.py") and "backend" in ctx.sm.func(short, "get_code").params else None)
+    calls = [c for c in _av.find_all(v, "call") if c[1].split(".")[-1] == "add_schemes"]
+    if not calls:
+        return None
+    add_f = ctx.sm.func("cli/utils.py", "add_schemes")
+    passed = dict(zip(add_f.params, calls[0][2]))
+    passed.update(dict(calls[0][3]))
+    return passed
+
+
 def check_generated_model(ctx: Ctx, rule: str, short: str = "cli/gotran2py.py"):
     """get_code hands the model it was given to the code generator, for every backend: a transformation applied on
     the way (for one backend only, say) makes the module compute something else than the model defines - and than the
@@ -97,7 +136,7 @@ def check_generated_model(ctx: Ctx, rule: str, short: str = "cli/gotran2py.py"):
 
     sm = ctx.sm
     gc = sm.func(short, "get_code")
-    A = util.AV(ctx)
+    A = cli_av(ctx)
     specs = [(None, {})]
     if short.endswith("gotran2py.py") and "backend" in gc.params:
         vals = common.enum_values(ctx, "cli/gotran2py.py", "Backend")
@@ -127,7 +166,7 @@ def check_get_code(ctx: Ctx, rule: str, short: str):
 
     sm = ctx.sm
     gc = sm.func(short, "get_code")
-    A = util.AV(ctx)
+    A = cli_av(ctx)
     is_py = short.endswith("gotran2py.py")
     specs: list[tuple[str | None, dict]] = [(None, {})]
     members: list[str] = []
@@ -201,7 +240,11 @@ def check_get_code(ctx: Ctx, rule: str, short: str):
                 continue
             ctx.check(any(_mentions_param(passed[q], x) for x in cands), rule, key, f"{q} <- {_av.show(passed[q])[:60]}", f"get_code passes {q}={_av.show(passed[q])[:60]} to add_schemes, which does not derive from its own option `{'/'.join(sorted(cands))}`", gc.where())
     # 4. the formatter selected by `format` is applied
-    fmt = [x for x in _av.find_all(v0, "vcall") if x[1][0] == "call" and x[1][1].split(".")[-1] == "get_formatter"]
+    def _formatter_of(target):
+        gf = [c_ for c_ in _av.find_all(target, "call") if c_[1].split(".")[-1] == "get_formatter"]
+        return gf[0] if gf else None
+
+    fmt = [(x[0], _formatter_of(x[1]), x[2]) for x in _av.find_all(v0, "vcall") if _formatter_of(x[1]) is not None]
     if not fmt:
         looked = [c for c in A.call_log if c[2][0] == "call" and c[2][1].split(".")[-1] == "get_formatter"]
         if looked or not _mentions_param(v0, "format"):
@@ -634,3 +677,15 @@ def documented_keys(ctx: Ctx) -> dict[str, list[str]]:
         if m and section is not None:
             out[section].append(m.group(1))
     return out
+
+
+def check_get_code_forwards(ctx: Ctx, rule: str, option: str):
+    """get_code hands its `option` to add_schemes (read from the value of get_code with the cli helpers expanded)"""
+    for short in ("cli/gotran2py.py", "cli/gotran2c.py"):
+        g = ctx.sm.func(short, "get_code")
+        passed = add_schemes_call(ctx, short)
+        key = g.key(option)
+        if passed is None:
+            ctx.undecided(rule, key, f"{short}::get_code: no call of add_schemes is found in what it computes", g.where())
+            continue
+        ctx.check(option in passed and _mentions_param(passed[option], option), rule, key, f"get_code forwards {option}", f"{short}::get_code does not forward {option} to add_schemes", g.where())
